@@ -126,6 +126,11 @@ struct World {
     returned_at: BTreeMap<u32, usize>,
     /// facts about hand-outs of reused connections, judged by the monitor
     reuse_facts: Vec<serde_json::Value>,
+    /// connections taken out of the pool for good, with the length of their server log at that moment
+    taken: BTreeMap<u32, usize>,
+    taken_reissued: usize,
+    take_size_bad: usize,
+    kept: Vec<redis::aio::MultiplexedConnection>,
 }
 
 impl World {
@@ -161,6 +166,9 @@ impl World {
                 };
                 let id = self.id_of(&mut c).await;
                 self.last_get = format!("ok{}", id);
+                if self.taken.contains_key(&id) {
+                    self.taken_reissued += 1;
+                }
                 self.known = self.known.max(id);
                 let _ = &pre;
                 if id <= known && id > 0 {
@@ -210,14 +218,16 @@ pub fn run_path(cfg: &Cfg, path: &PathRec<Post>, record: bool) -> (PathResult, V
         let mut c = Config::from_url(format!("redis://127.0.0.1:{}/", port));
         c.pool = Some(PoolConfig::new(cfg.max_size));
         let pool = c.create_pool(Some(Runtime::Tokio1)).unwrap();
-        let mut w = World { pool, srv: srv.clone(), held: BTreeMap::new(), tags: 0, known: 0, last_get: "-".into(), returned_at: BTreeMap::new(), reuse_facts: vec![] };
+        let mut w = World { pool, srv: srv.clone(), held: BTreeMap::new(), tags: 0, known: 0, last_get: "-".into(), returned_at: BTreeMap::new(), reuse_facts: vec![], taken: BTreeMap::new(), taken_reissued: 0, take_size_bad: 0, kept: vec![] };
         let mut n = 0usize;
         let ev = |w: &World, n: usize, k: &str, act: &str, probe: i64| -> String {
             let st = w.pool.status();
             let s = w.srv.lock().unwrap();
             let bad = w.reuse_facts.iter().filter(|f| !(f["saw_unwatch"].as_bool().unwrap() && f["saw_ping"].as_bool().unwrap() && f["unwatch_first"].as_bool().unwrap()
                 && f["reply"] == "right" && !f["watching"].as_bool().unwrap())).count();
-            json!({"run": path.id, "i": n, "k": k, "act": act, "size": st.size, "avail": st.available, "max": cfg.max_size,
+            // a connection that was taken must not see recycle traffic of the pool afterwards
+            let taken_recycled = w.taken.iter().filter(|(c, from)| s.conns[(**c - 1) as usize].cmds[(**from).min(s.conns[(**c - 1) as usize].cmds.len())..].iter().any(|x| x.0 == "PING" || x.0 == "UNWATCH")).count();
+            json!({"run": path.id, "i": n, "k": k, "act": act, "size": st.size, "taken_reissued": w.taken_reissued, "take_size_bad": w.take_size_bad, "taken_recycled": taken_recycled, "avail": st.available, "max": cfg.max_size,
                    "held": w.held.keys().collect::<Vec<_>>(), "last_get": w.last_get, "dup_pings": s.dup_pings, "npings": s.pings.len(),
                    "bad_reuse": bad, "reuses": w.reuse_facts.len(), "probe_got": probe}).to_string()
         };
@@ -247,8 +257,15 @@ pub fn run_path(cfg: &Cfg, path: &PathRec<Post>, record: bool) -> (PathResult, V
                 }
                 "Take" => {
                     if let Some(conn) = w.held.remove(&c) {
+                        let before = w.pool.status().size;
                         let raw = Connection::take(conn);
-                        drop(raw);
+                        if w.pool.status().size + 1 != before {
+                            w.take_size_bad += 1;
+                        }
+                        let n = w.srv.lock().unwrap().conns[(c - 1) as usize].cmds.len();
+                        w.taken.insert(c, n);
+                        // the caller keeps using the connection it took
+                        w.kept.push(raw);
                     }
                 }
                 _ => {}
